@@ -1,6 +1,6 @@
 (* modelrun command "codegen-x86": the model of the x86-64 code generator against the real one. *)
 From Coq Require Import List ZArith NArith String Bool.
-From SCC Require Import Base.Sexp Lang.AxSyn Sem.AxSem Sem.AxTrace Sem.X86Sem Sem.HeapCheck Sem.X86Heap Model.Backend Model.X86 Model.X86Io Model.RunBase.
+From SCC Require Import Base.Sexp Lang.AxSyn Sem.AxSem Sem.AxTrace Sem.X86Sem Sem.X86Wf Sem.HeapCheck Sem.X86Heap Model.Backend Model.X86 Model.X86Io Model.RunBase.
 Import ListNotations.
 Open Scope string_scope.
 
@@ -218,3 +218,24 @@ Definition show_x86_case (i r : sexp) : verdict :=
   | _ => VBad "input shape"
   end.
 Definition run_show_x86 : string -> string := run_cases show_x86_case.
+
+(* ---------- C14: assembler-level well-formedness of the implementation's output ---------- *)
+Definition wf_x86_case (i r : sexp) : verdict :=
+  match i, r with
+  | L [Q _; p; lc; _], L [cs; _] =>
+      match g_xcodes cs with
+      | Some cs =>
+          match asm_wf cs with
+          | Some why => VViol ("class=asm-ill-formed " ++ why)
+          | None =>
+              let nlab := List.length (defined_labels cs) in
+              let big := existsb (fun c => match c with MOVI _ i => negb (fits32 i) | _ => false end) cs in
+              VOk ("nt labels" ++ n_to_string (N.log2 (N.of_nat nlab + 1)) ++ (if big then " imm64" else "")
+                   ++ (if existsb (fun c => match c with JMPLN _ => true | _ => false end) cs then " table" else ""))
+          end
+      | None => VBad "rust output unreadable"
+      end
+  | _, L [A "PANIC"; _] => VSkip "implementation panicked (capacity)"
+  | _, _ => VBad "case shape"
+  end.
+Definition run_wf_x86 : string -> string := run_cases wf_x86_case.
